@@ -455,3 +455,18 @@ B('pkgA_reserved_check_any_wrong_table', ['C04'], 'R04.c',
   (A, _RES_CHECK_OLD, "        if any(name in self.resources for name in _REQUEST_BUILTINS):\n"
                       "            raise NameError('resource names conflict with builtins')\n"),
   (A, "RESERVED_ARGS", "RESERVED_ARGS, _REQUEST_BUILTINS"))
+
+T('pkgA_twin_named_temporaries_binding', ['C01'],
+  (A, "        self._null_route = NullRoute().bind(self)\n", "        null_route = NullRoute()\n        self._null_route = null_route.bind(self)\n"),
+  (R, "        self._execute = make_middleware_chain(self.middlewares, unbound_route.endpoint, render, provided)\n",
+      "        chain = make_middleware_chain(self.middlewares, unbound_route.endpoint, render, provided)\n        self._execute = chain\n"),
+  (R, "        return inject(self._execute, injectables)\n", "        result = inject(self._execute, injectables)\n        return result\n"))
+B('pkgA_named_chain_never_stored', ['C01'], 'R01.a',
+  (R, "        self._execute = make_middleware_chain(self.middlewares, unbound_route.endpoint, render, provided)\n",
+      "        chain = make_middleware_chain(self.middlewares, unbound_route.endpoint, render, provided)\n        self._execute = None\n"))
+T('pkgA_twin_execute_named_application', ['C02', 'C04'],
+  (R, "        injectables = {'_route': self,\n                       'request': request,\n                       '_application': self.bound_apps[-1]}\n        injectables.update(self.resources)\n        injectables.update(kwargs)\n        return inject(self._execute",
+      "        serving_app = self.bound_apps[-1]\n        injectables = {'_route': self,\n                       'request': request,\n                       '_application': serving_app}\n        injectables.update(self.resources)\n        injectables.update(kwargs)\n        return inject(self._execute"))
+T('pkgA_twin_dispatch_path_params_renamed', ['C02'],
+  (A, "            path_params = route.match_path(url_path)\n            if path_params is None:\n                continue\n            request.path_params = path_params\n            params = dict(base_params, **path_params)\n",
+      "            url_params = route.match_path(url_path)\n            if url_params is None:\n                continue\n            request.path_params = url_params\n            params = dict(base_params, **url_params)\n"))
